@@ -73,6 +73,14 @@ func c19Name(f reflect.StructField) string {
 	return name
 }
 
+type c19RecHolder struct {
+	C GRec
+	P *GRec           `json:"p"`
+	L []GRec          `json:"l"`
+	M map[string]GRec `json:"m"`
+	X int
+}
+
 // c19GenQuery draws a query over the field tree of t (through pointers, slices, arrays, maps)
 func c19GenQuery(rng *rand.Rand, t reflect.Type, depth int) []qn {
 	for t.Kind() == reflect.Ptr || t.Kind() == reflect.Slice || t.Kind() == reflect.Array || t.Kind() == reflect.Map {
@@ -107,7 +115,18 @@ func c19GenQuery(rng *rand.Rand, t reflect.Type, depth int) []qn {
 	return out
 }
 
+// c19SlotErrs: what the slot assertions of the verif build reported during c19Marshal calls
+var c19SlotErrs []string
+
 func c19Marshal(q *json.FieldQuery, iv interface{}) (out []byte, err error, pan string) {
+	json.VerifSlotsReset(true)
+	defer func() {
+		errs, _, _, _, _ := json.VerifSlotsReport()
+		json.VerifSlotsReset(false)
+		if len(errs) > 0 && len(c19SlotErrs) < 8 {
+			c19SlotErrs = append(c19SlotErrs, errs[0])
+		}
+	}()
 	return safeMarshal(func() ([]byte, error) {
 		ctx := context.Background()
 		if q != nil {
@@ -171,12 +190,16 @@ func runC19(c *Ctx) {
 	c.RunCases("queries", ntypes, func(c *Ctx, k int, rng *rand.Rand) {
 		g := &Gen{R: rng}
 		t := g.Struct(3)
+		if k%5 == 0 {
+			// recursive struct types: a query on the recursive member, with and without a sub-query
+			t = []reflect.Type{reflect.TypeOf(GRec{}), reflect.TypeOf(c19RecHolder{}), reflect.TypeOf(&GRec{}), reflect.TypeOf([]GRec{})}[(k/5)%4]
+		}
 		if rng.Intn(3) == 0 {
 			t = reflect.SliceOf(t)
 		} else if rng.Intn(4) == 0 {
 			t = reflect.MapOf(reflect.TypeOf(""), t)
 		}
-		v := g.Value(t, 3, GenOpt{Finite: true, ValidNum: true})
+		v := g.Value(t, 4, GenOpt{Finite: true, ValidNum: true})
 		iv := v.Interface()
 		if c01ClassOf(iv, nil, nil, nil, nil) != "" || c19HasPtrShapedStruct(t, 0) {
 			// (a pointer-shaped struct left without members by the query prints null: the known
@@ -213,7 +236,9 @@ func runC19(c *Ctx) {
 				c.Oracle("build", qString(qs), "err "+err.Error(), "builds", false, "")
 				continue
 			}
+			c19SlotErrs = nil
 			out, oerr, pan := c19Marshal(fq, iv)
+			c.Oracle("slot-assertions", in+" query "+qString(qs), strings.Join(c19SlotErrs, "; "), "every load/store inside the slot array and in a frame of its own", len(c19SlotErrs) == 0, "")
 			res := "err"
 			if pan != "" {
 				res = "panic"
